@@ -38,7 +38,8 @@ TraceDg ==
   /\ IsEvent("dg")
   /\ LET e == Trace[l] IN
      /\ ("C01" \in Lens) => Handled(e)                \* never panics, never blocks forever
-     /\ ("C16" \in Lens) => Handled(e) /\ e.match     \* ... and under concurrency the reply answers ITS request
+     /\ ("C16" \in Lens) => /\ Handled(e) /\ e.match   \* ... and under concurrency the reply answers ITS request
+                             /\ e.static                \* a client the static file lists before, during and after every refresh gets its listed address
 
 TraceProbe ==
   /\ IsEvent("probe")
